@@ -193,6 +193,8 @@ class LanDevice:
                 self._emit("hs_bad", tr, [v3_error_packet()])
                 return
             nonce = bytes(self.rng.getrandbits(8) for _ in range(32))
+            if getattr(self, "nonce_hook", None):
+                nonce = self.nonce_hook(nonce)          # the appliance's random value is its own choice: tests steer it to reach rare session keys
             if self.rotate_on_handshake or s["key"] is None:
                 self.nkeys += 1
                 s["key"] = rc.xor(nonce, self.key)
